@@ -2036,7 +2036,9 @@ def c11_cases(tier, seed):
 
 PROPS["C11"] = {
     "theorems": ["plainAttrFlags_frame", "C11_plain_attr_appended", "C11_transformOn_after_earlier_attrs", "C11_child_expression_in_order",
-                 "C11_component_children_lazy", "C11_call_child_once", "C11_fragment_argument_order"],
+                 "C11_component_children_lazy", "C11_call_child_once", "C11_fragment_argument_order",
+                 "C01_plain_attrs_exactly_written", "C01_plain_element_props_object"],
+    "extra_modules": ["VueJsx.Props.C01b"],
     "cases": c11_cases,
     "explanation": "oracle: the creation trace (tag, props in order with repeated class/style/listeners at their first position, then children of non-component hosts; a sole call child of a component once) and the default-slot trace of every element, computed from the denotation of the input, equal those computed from the evaluation of the real output (temporaries substituted only when assigned exactly once inside the _isSlot test); directive expressions once each",
 }
